@@ -77,10 +77,6 @@ Proof. split; vm_compute; reflexivity. Qed.
    stream, never panic, hang or process exit) are judged on every generated
    input by Corr/C03.v spec_check, each call running in a watchdog-guarded
    child process. *)
-Definition C03_all_parsers_statement : Prop :=
-  forall (parse_any : list byte -> option (list (list byte * list byte))) inp,
-  parse_any inp = None \/ exists rows, parse_any inp = Some rows /\ rows <> [].
-
 Example C03_nonvacuous :
   parse [x3e; x61; x0a] = RErr /\ parse [x3e; x20; x0a] = RErr /\
   parse [x3e; x61; x0a; x41; x43; x0a] = ROk [([x61], [x41; x43])].
